@@ -177,8 +177,8 @@ Inductive sub_stmt : stmt -> stmt -> Prop :=
 | Sub_switch t p cs : sub_cases t cs -> sub_stmt t (SSwitch p cs)
 | Sub_label t p l b : sub_stmt t b -> sub_stmt t (SLabel p l b)
 | Sub_try1 t p bp blk h hb f fb : sub_stmts t blk -> sub_stmt t (STry p bp blk h hb f fb)
-| Sub_try2 t p bp blk h hb f fb : sub_stmts t hb -> sub_stmt t (STry p bp blk h hb f fb)
-| Sub_try3 t p bp blk h hb f fb : sub_stmts t fb -> sub_stmt t (STry p bp blk h hb f fb)
+| Sub_try2 t p bp blk hp hb f fb : sub_stmts t hb -> sub_stmt t (STry p bp blk (Some hp) hb f fb)
+| Sub_try3 t p bp blk h hb fp fb : sub_stmts t fb -> sub_stmt t (STry p bp blk h hb (Some fp) fb)
 with sub_stmts : stmt -> stmts -> Prop :=
 | SubL_here t s r : sub_stmt t s -> sub_stmts t (SCons s r)
 | SubL_next t s r : sub_stmts t r -> sub_stmts t (SCons s r)
